@@ -45,8 +45,8 @@ class C04:
     level = "exploration"
     tables = True
     rule = (
-        "cases = (hostile argument string, delivery form in {@(v), @([v,w]), @(generator), @(non-str), glued pre@(v)post, repr/raw/triple/escaped literals, f-string, macro, @$()}, "
-        "position first/middle/last, delivery path in {threaded alias, unthreadable alias, real child, real child after a pipe, alias inside $()}); "
+        "cases = (hostile argument string, delivery form in {@(v), @([v,w]), @(generator), @(non-str), glued pre@(v)post, repr/raw/triple/escaped literals, f-string, triple-quoted f-string with newline/quote/escape segments, macro, @$()}, "
+        "position first/middle/last, delivery path in {threaded alias, unthreadable alias, real child, real child after a pipe, alias inside $(), the same commands reached through a list alias, an alias of an alias and a string alias}); "
         "distinct_nontrivial = distinct (string, form, position, path) with a string containing at least one shell/glob/quote metacharacter"
     )
     assumptions = [
@@ -85,6 +85,12 @@ class C04:
         al["rec"] = self.R.alias("rec")
         al["urec"] = self.R.alias("urec", unthreadable=True)
         al["aok"] = lambda args, stdin=None: "ok\n"
+        # the same commands reached through list / string aliases (what `ls`, `grep` ... are in a default session):
+        # the user's arguments must arrive exactly as they do when the command is named directly
+        al["lrec"] = ["rec"]
+        al["llrec"] = ["lrec"]
+        al["srec"] = "rec"
+        al["lreal"] = ["argv_dump"]
 
         def producer(args, stdin=None):
             return self.ctx.get("_producer_out", "")
@@ -140,6 +146,8 @@ class C04:
     def named(self, form, path, outcome, v, got, exp):
         if (form.startswith("lit:") or form == "fstring") and any(c in v for c in "\u2028\u2029\x85\x0b\x0c\x1c\x1d\x1e"):
             return "LITERAL/unicode-line-boundary-character-breaks-or-alters-the-literal"
+        if form == "fstring-triple" and "\\\n" in v:
+            return "FSTRING/escaped-backslash-before-a-newline-in-a-triple-quoted-f-string"
         if form == "macro" and not isinstance(got, str) and len(got) == 1 and v.rstrip().endswith(";") and got[0] == [v.rstrip()[:-1].rstrip()]:
             return "MACRO/trailing-semicolon-is-dropped-from-the-raw-text"
         if form == "macro" and outcome == "SyntaxError" and v.rstrip().endswith(("&&", "||")):
@@ -152,7 +160,8 @@ class C04:
         v, pos, path = case["v"], case["pos"], case["path"]
         pre, post = {"first": ("", " z"), "mid": ("a ", " z"), "last": ("a ", "")}[pos]
         wrap = lambda e: ([] if not pre else ["a"]) + e + ([] if not post else ["z"])
-        cmd = {"threaded_alias": "rec", "unthreadable_alias": "urec", "real_child": "argv_dump", "real_child_after_pipe": "aok | argv_dump", "alias_in_captured_subproc": "rec"}[path]
+        cmd = {"threaded_alias": "rec", "unthreadable_alias": "urec", "real_child": "argv_dump", "real_child_after_pipe": "aok | argv_dump", "alias_in_captured_subproc": "rec",
+               "list_alias_to_callable": "lrec", "alias_of_alias": "llrec", "string_alias_to_callable": "srec", "list_alias_to_real_child": "lreal"}[path]
 
         def line(body):
             s = f"{cmd} {pre}{body}{post}"
@@ -207,6 +216,17 @@ class C04:
             if "'" not in v and "\\" not in v and "{" not in v and "}" not in v and "\n" not in v:
                 src = line("f'" + v + "{w}'")
                 self.judge(rec, "fstring", path, src, self.run(src, w="W"), wrap([v + "W"]), v, pos)
+        if (not forms or "fstring-triple" in forms) and not ("$" in v or "~" in v) and not any(c in v for c in "\u2028\u2029\x85\x0b\x0c\x1c\x1d\x1e\r"):
+            # triple-quoted f-strings: literal segments with real newlines, quote characters and backslash escapes around a field
+            for q in ('"""', "'''"):
+                esc = v.replace("\\", "\\\\").replace("{", "{{").replace("}", "}}").replace(q[0], "\\" + q[0]).replace("\t", "\\t")
+                for lit in ("f" + q + esc + "{w}" + q, "f" + q + "{w}" + esc + q, "f" + q + "l1\n" + esc + "{w}\\t" + q):
+                    try:
+                        want = eval(lit, {"w": "W"})  # CPython defines the value of the literal
+                    except Exception:
+                        continue
+                    src = line(lit)
+                    self.judge(rec, "fstring-triple", path, src, self.run(src, w="W"), wrap([want]), v, pos)
 
     def run_special(self, rng, rec):
         """macro, @$() and documented-expansion classes (threaded alias + real child)."""
@@ -246,8 +266,14 @@ class C04:
             if real > 0 and r < 0.25:
                 path = rng.choice(["real_child", "real_child_after_pipe"])
                 real -= 1
-            elif r < 0.55:
+            elif r < 0.45:
                 path = "threaded_alias"
+            elif r < 0.58:
+                path = rng.choice(["list_alias_to_callable", "alias_of_alias", "string_alias_to_callable", "list_alias_to_real_child"])
+                if path == "list_alias_to_real_child":
+                    if real <= 0:
+                        path = "list_alias_to_callable"
+                    real -= 1
             elif r < 0.80:
                 path = "unthreadable_alias"
             else:
